@@ -48,8 +48,9 @@ pub fn run<F: FnMut(&Case<'_>, &mut Report)>(rep: &mut Report, o: &Opts, cfg: Ge
         // do the hypotheses of the totality theorem (Clap.C01.tryGetMatchesFrom_total) hold for the built model of
         // each command the real library accepted? (statistics: how much of the generated space the theorem covers)
         for (req, m) in wf_reqs.iter().zip(driver_batch(&o.driver, &wf_reqs, o.par).iter()) {
-            if m == "WF tree=1 height=1" { rep.count("totality_theorem_hypotheses_hold"); }
-            else { rep.count(&format!("totality_theorem_hypotheses_fail:{m}")); if rep.notes.len() < 12 { rep.notes.push(format!("WF hypothesis not met: {m} for {req}")); } }
+            if m.starts_with("WF tree=1 height=1") { rep.count("totality_theorem_hypotheses_hold"); }
+            if m.ends_with("user=1") { rep.count("totality_theorem_user_level_hypotheses_hold"); }
+            if !(m == "WF tree=1 height=1 user=1") { rep.count(&format!("totality_theorem_hypotheses_fail:{m}")); if rep.notes.len() < 12 { rep.notes.push(format!("WF hypothesis not met: {m} for {req}")); } }
         }
     }
     if o.driver != "none" {
